@@ -20,7 +20,13 @@ def check(ctx):
     ctx.rule("C16.G3", "the run callback captures only the bound-call table, the observer and the retry decorator")
     ctx.rule("C16.G4", "a call's result flows only into its own result slot; argument lists are locals of BoundCall.run; no memoisation on the path; the retry wrapper does not keep the exception (frame/traceback cycle) after a failed attempt")
     ctx.assume("garbage collection, references held by user code, and the traceback of the *recorded first failure* (which keeps that call's inputs alive until the run ends) are not decided")
-    er = E.discover(m)
+    try:
+        er = E.discover(m)
+    except AnalysisError:
+        # the engine's error bookkeeping is not in a known form: decide at least what it keeps of failures, then report
+        ctx.run(E.rule_failures_not_accumulated, "C16.G4", E.discover(m, partial=True))
+        raise
+    ctx.run(E.rule_failures_not_accumulated, "C16.G4", er)
     rr = R.discover(m, er)
     cb, prep = rr.runcb, rr.prep_run
     mod = cb.module
@@ -33,6 +39,8 @@ def check(ctx):
     for o in ctx.obligations[before:]:
         if "/unreachable-" in o["instance"]:
             o["rule"] = "C16.G3"
+    from .evalrules import rule_failure_path
+    ctx.run(lambda c_: rule_failure_path(c_, rr, rid_retained="C16.G1"))
     # the failed call's frame is pinned by the recorded error's traceback: the BoundCall must not sit in a local of the callback
     runs = [c for c in cb.own_calls() if rr.bound_run in m.callee_funcs(cb, c)]
     for rc in runs:
